@@ -171,6 +171,12 @@ const HOSTILE_IDENTS: &[&str] = &[
     "inf", "Infinity", "x0", "_1", "O", "l", "I", "nil", "t", "T", "Y", "N", "None", "undefined", "int", "str",
     "o0x1f", "_0", "A", "Z", "quote", "lambda", "define", "car", "cdr", "Top", "Block", "Integer", "Boolean",
     "Variable", "name", "value", "Identifier", "Print", "format", "arguments", "members", "parameters", "Extends",
+    // the vocabulary of the serialized AST itself: node names, operator variant names, field names — an in-band encoding of
+    // anything in an interchange format would collide with a user identifier spelled like it
+    "Multiplication", "Division", "Module", "Addition", "Subtraction", "Inequality", "Equality", "Less", "LessEqual", "Greater", "GreaterEqual",
+    "Disjunction", "Conjunction", "Null", "Array", "Object", "AccessVariable", "AccessField", "AccessArray", "AssignVariable", "AssignField",
+    "AssignArray", "Function", "CallFunction", "CallMethod", "Loop", "Conditional", "size", "field", "index", "body", "condition", "consequent",
+    "alternative", "Operator", "AST", "Some", "Ok", "Err", "Box", "Vec", "String", "unit", "add", "sub", "mul", "div", "eq", "neq", "get", "set",
 ];
 
 const BOUNDARY: &[i64] = &[
